@@ -34,36 +34,42 @@ example : rrAssign exMembers exParts 1 10 = [0, 3] ∧ rrAssign exMembers exPart
 (`Gen/GroupBalancerSel.lean` is re-emitted from the source text by go/extract on every run) -/
 
 theorem range_sel_regenerated (M P i j : Nat) :
-    rangeSel M P i j = Gen.GroupBalancer.rangeCond (partitionIndex := j)
-      (minIndex := Gen.GroupBalancer.rangeMin (memberIndex := i) (partitionCount := P) (memberCount := M))
-      (maxIndex := Gen.GroupBalancer.rangeMax (memberIndex := i) (partitionCount := P) (memberCount := M)) := rfl
+    rangeSel M P i j = Gen.GroupBalancer.rangeCond (memberIndex := i) (partitionIndex := j) (memberCount := M)
+      (partitionCount := P) := rfl
 
-theorem rr_sel_regenerated (M i j : Nat) :
-    rrSel M i j = Gen.GroupBalancer.rrCond (partitionIndex := j) (memberCount := M) (memberIndex := i) := rfl
+theorem rr_sel_regenerated (M P i j : Nat) :
+    rrSel M i j = Gen.GroupBalancer.rrCond (memberIndex := i) (partitionIndex := j) (memberCount := M)
+      (partitionCount := P) := rfl
 
-/-- `sortById` meets the contract of `sort.Slice` for the comparator written in `findMembersByTopic`: the result is
-a permutation without inversions -/
+/-- `sortById` meets the contract of `sort.Slice` for the comparator written in `findMembersByTopic` (which compares
+elements i and j of the very slice being sorted): the result is a permutation without inversions -/
 theorem sort_regenerated (l : List Member) :
     (sortById l).Perm l ∧
-    (sortById l).Pairwise (fun a b => Gen.GroupBalancer.sortLess (members_i_ID := b.id) (members_j_ID := a.id) = false) := by
+    (sortById l).Pairwise (fun a b => Gen.GroupBalancer.sortLess (elem_i_ID := b.id) (elem_j_ID := a.id) = false) := by
   refine ⟨sortById_perm l, (sortById_sorted l).imp ?_⟩
   intro a b h
   simp [Gen.GroupBalancer.sortLess]; omega
 
-/-- the arithmetic of `assignTopic` as written in the source is the arithmetic of `rackAssignTopic` / `zoneAlloc` -/
-theorem rack_arith_regenerated (P M L C T lo rem : Nat) :
-    Gen.GroupBalancer.rackTarget (len_partitions := P) (len_members := M) = P / M ∧
-    Gen.GroupBalancer.rackRemainder (len_partitions := P) (len_members := M) = P % M ∧
-    Gen.GroupBalancer.rackPartsPerMember (len_parts := L) (len_consumers := C) = L / C ∧
-    Gen.GroupBalancer.cap_partsPerMember_targetPerMember (partsPerMember := L / C) (targetPerMember := T) = decide (L / C > T) ∧
-    Gen.GroupBalancer.cap_leftover_remainder (leftover := lo) (remainder := rem) = decide (lo > rem) ∧
-    Gen.GroupBalancer.cap_leftover_len_consumers (leftover := lo) (len_consumers := C) = decide (lo > C) :=
-  ⟨rfl, rfl, rfl, rfl, rfl, rfl⟩
+/-- the arithmetic of `assignTopic` as written in the source is the arithmetic of `rackAssignTopic` / `zoneAlloc`
+(roles: nZoneParts / nZoneConsumers = lengths of the zone's partitions / consumers, ppm, leftover, target, remainder) -/
+theorem rack_arith_regenerated (P M L C : Nat) :
+    Gen.GroupBalancer.rackTarget (nPartitions := P) (nMembers := M) = P / M ∧
+    Gen.GroupBalancer.rackRemainder (nPartitions := P) (nMembers := M) = P % M ∧
+    Gen.GroupBalancer.rackPartsPerMember (nZoneParts := L) (nZoneConsumers := C) = L / C ∧
+    Gen.GroupBalancer.rackCaps =
+      ["if decide (ppm > target) then ppm := target",
+       "under (ppm == target): if decide (leftover > remainder) then leftover := remainder",
+       "under (ppm == target): if decide (leftover > nZoneConsumers) then leftover := nZoneConsumers",
+       "under (ppm == target): remainder -= leftover"] :=
+  ⟨rfl, rfl, rfl, by decide⟩
 
-/-- structure of the source that the models rely on: both member-by-topic loops skip repeated topics through
+/-- structure of the source that the models rely on: the Range / RoundRobin loops are the plain triple loop without
+early exits, every value of the map `findMembersByTopic` returns is sorted, both member-by-topic loops skip repeated topics through
 `topicListedBefore` (modelled by `firstListings`), and `makeSyncGroupRequestV0` allocates the per-member map inside
 the loop over the members (modelled by `syncRequest` calling `toTopics32` afresh per member) -/
 theorem structure_regenerated :
+    Gen.GroupBalancer.plainSelectionLoops = ["RangeGroupBalancer.AssignGroups", "RoundRobinGroupBalancer.AssignGroups"] ∧
+    Gen.GroupBalancer.sortsEveryMapValue = true ∧
     Gen.GroupBalancer.topicGuardSites = ["findMembersByTopic", "RackAffinityGroupBalancer.AssignGroups"] ∧
     Gen.GroupBalancer.topicListedBeforeIsPrefixSearch = true ∧
     Gen.GroupBalancer.topics32FreshPerMember = true := by decide
